@@ -12,7 +12,7 @@ from ..harness import JobCtx
 from .C04 import LEVELS, read_objective
 
 PROPERTY = 'C08'
-MIR = [('solver', 'on'), ('rapid_solve', 'on'), ('solution', 'on')]
+MIR = [('solver', 'on'), ('rapid_solve', 'on'), ('solution', 'on'), ('solver', 'off'), ('rapid_solve', 'off'), ('solution', 'off')]
 CRATES = ['solver', 'rapid_solve', 'solution']
 ASSUMPTIONS = ['rayon parallel iterators are modelled as their sequential counterparts (map, min_by): ties between equally good candidates may be broken differently by rayon, which the obligation allows',
                'the loop of ParallelLocalSearchSolver::solve (repeat improve until None) is read from the registry source, not executed; whole search trajectories on real instances are outside',
@@ -25,14 +25,14 @@ def jobs(tier, seed):
     for k in range(0, 4 if tier == 'quick' else 5): js.append(dict(name='improver step, %d candidates' % k, func='job_improve', kwargs=dict(k=k)))
     return js
 
-def job_config(name):
+def job_config(name, mode='on'):
     rec = []
     def m_with_options(ex, callee, args): rec.append(list(args)); return Opaque('solver')
     models = [(r'^ParallelLocalSearchSolver::<ScheduleWithInfo>::with_options::<.*>$', m_with_options),
               (r'^ParallelLocalSearchSolver::<ScheduleWithInfo>::with_options$', m_with_options),
               (r'^RSSchedParallelNeighborhood::new$', lambda ex, c, a: Agg('RSSchedParallelNeighborhood', None, list(a))),
               (r'^(rapid_time::)?Duration::new$', lambda ex, c, a: Opaque('duration ' + (a[0].text if isinstance(a[0], StrVal) else '?')))]
-    J = JobCtx(name, CRATES, extra_models=models); ex = J.ex
+    J = JobCtx(name, CRATES, mode=mode, extra_models=models); ex = J.ex
     f = ex.resolve_fn('build_local_search_solver')
     def body():
         ex.pc_global = []; ex.inputs = {}; del rec[:]
@@ -58,7 +58,7 @@ def lex_lt(a, b):
     return r
 def lex_le(a, b): return z3.Not(lex_lt(b, a))
 
-def job_improve(name, k):
+def job_improve(name, k, mode='on'):
     S = STRUCTS; nlev = 4
     J = None
     def ovec(ex, tag):
@@ -76,7 +76,7 @@ def job_improve(name, k):
               (r'^Objective::<S>::evaluate$', m_evaluate),
               (r'^std::cmp::Ordering::then_with::<.*>$', lambda ex, c, a: a[0] if a[0].variant != 0 else ex.call_closure(a[1], [])),
               (r'^<&(.*) as PartialOrd>::partial_cmp$', lambda ex, c, a: ex.call('<%s as PartialOrd>::partial_cmp' % re.match(r'^<&(.*) as PartialOrd>', c).group(1), [ex.deref_val(a[0]), ex.deref_val(a[1])]))]
-    J = JobCtx(name, ['rapid_solve'], extra_models=models); ex = J.ex
+    J = JobCtx(name, ['rapid_solve'], mode=mode, extra_models=models); ex = J.ex
     f = [v[0] for kk, v in ex.fns.items() if 'parallel_minimizer.rs' in kk and kk.endswith('>::improve')]
     if len(f) != 1: raise Unsupported('ParallelMinimizer::improve: %d candidates' % len(f))
     def body():
@@ -100,4 +100,6 @@ def job_improve(name, k):
     return J.result()
 import re
 REQUIRED_COVERS = {'quick': ['step accepted', 'fixpoint'], 'thorough': ['step accepted', 'fixpoint']}
-def confirm(c): return False, 'no native scenario (structural obligation)'
+def confirm(c):
+    from ..harness import confirm_on_other_flavour
+    return confirm_on_other_flavour('mirsym.obligations.C08', c['job_func'], c.get('job_kwargs', {}), c['clause'])
